@@ -74,6 +74,15 @@ func drawC09Case(t *rapid.T) *c09Case {
 	if gen.Chance(t, 25, "ptr") {
 		ptr = rapid.IntRange(1, 8).Draw(t, "pointer")
 	}
+	// stream precondition (DESIGN 2.2-1): every section of a unit starts in the unit's first packet. MaxBody bounds the
+	// loops of a section, not its descriptors, so a leading section can come out longer than a packet: keep the last one only
+	head := 1 + ptr
+	for _, e := range secs[:len(secs)-1] {
+		head += len(e)
+	}
+	if head >= 184 {
+		secs = secs[len(secs)-1:]
+	}
 	c.payload = ref.PSIUnit(ptr, 0x00, secs...)
 	c.secStart = 1 + ptr
 	c.secEnd = len(c.payload)
